@@ -123,6 +123,28 @@ def unit_inventory(eng):
         if isinstance(node, ast.Attribute) and node.attr == "environ":
             return "os.environ"
         return None
+    # interpreter- and process-wide state has no store site in the package: it is changed by CALLS into the stdlib
+    SETTERS = {"setrecursionlimit", "setswitchinterval", "settrace", "setprofile", "chdir", "fchdir", "chroot", "putenv", "unsetenv", "umask", "setlocale", "seed", "simplefilter",
+               "filterwarnings", "resetwarnings", "signal", "set_threshold", "reload", "setdefaulttimeout", "setrlimit", "setcheckinterval", "set_int_max_str_digits",
+               "setdefaultencoding", "set_asyncgen_hooks", "setdlopenflags", "install_opener", "register_error", "excepthook", "displayhook", "invalidate_caches"}
+    STDLIB_ROOTS = {"sys", "os", "random", "locale", "signal", "gc", "warnings", "atexit", "threading", "resource", "faulthandler", "builtins", "importlib", "codecs", "time", "socket",
+                    "decimal", "re", "struct", "itertools", "functools"}
+
+    def process_state(node):
+        if isinstance(node, ast.Call) and isinstance(node.func, ast.Attribute) and node.func.attr in SETTERS:
+            return "call %s" % frames.text(node.func)
+        if isinstance(node, ast.Call) and isinstance(node.func, ast.Attribute) and frames.root_name(node.func) == "gc" and node.func.attr in ("disable", "enable", "freeze", "collect"):
+            return "call %s" % frames.text(node.func)
+        if isinstance(node, ast.Call) and isinstance(node.func, ast.Attribute) and frames.root_name(node.func) == "atexit":
+            return "call %s" % frames.text(node.func)
+        if isinstance(node, (ast.Assign, ast.AugAssign, ast.Delete)):
+            ts = node.targets if not isinstance(node, ast.AugAssign) else [node.target]
+            for t in ts:
+                if isinstance(t, (ast.Attribute, ast.Subscript)) and frames.root_name(t) in STDLIB_ROOTS:
+                    return "store %s" % frames.text(t)
+        return None
+    ps = frames.syntactic_scan(pkg, process_state)
+    ob(obs, unit, func, "no-call-or-store-that-changes-interpreter-or-process-wide-state(recursion limit, cwd, environment, locale, warnings filters, signal handlers, sys.*)", not ps, ps)
     nd = [x for x in frames.syntactic_scan(pkg, nondeterminism) if x[0] not in ("devices",)]
     ob(obs, unit, func, "no-set-iteration-hash-id-time-random-or-environment-reads-outside-the-audio-device-back-ends", not nd, nd, kind="closed")
     return dict(unit=unit, func=func, paths=1, obligations=obs, wall=0.0)
@@ -179,12 +201,19 @@ def unit_emit_report(eng, prio, latched=False):
         if latched:
             obj.attrs["is_error_condition"] = True
         pr = eng.resolve_global(rmod, prio)
-        return eng.call(eng.resolve_global(rmod, "emit_report"), [pr, "some-id", (1, 2, "text")], {})
+        ccls = eng.resolve_global(eng.load_module("context"), "Context")
+        mk = lambda fn, pos: Obj(ccls, dict(filename=fn, code="x" * 9, pos=pos), name="ctx")  # noqa
+        # two parts: the culprit (in a file whose name sorts LAST) and a note about another file
+        spans = [(mk("z_culprit.mac", 4), mk("z_culprit.mac", 5), "culprit"), (mk("a_other.mac", 1), mk("a_other.mac", 2), "note")]
+        eng.I["spans"] = spans
+        return eng.call(eng.resolve_global(rmod, "emit_report"), [pr, "some-id"] + spans, {})
 
     def post(eng, o):
         kind, val = o
         obj, calls = eng.I["obj"], eng.I["calls"]
         eng.prove("handler-called-exactly-once-with-the-report", len(calls) == 1 and calls[0][1] == "some-id")
+        eng.prove("the-handler-receives-the-parts-in-the-order-given(the culprit first, whatever the file names)",
+                  len(calls) == 1 and len(calls[0]) == 4 and calls[0][2] is eng.I["spans"][0] and calls[0][3] is eng.I["spans"][1])
         eng.prove("latch-after==latch-before-or-error-severity(set by error and critical, never cleared, never set by a warning)",
                   obj.attrs["is_error_condition"] is (latched or prio != "warning"))
         eng.prove("critical-aborts-with-UnrecoverableError-others-return", (kind == "raise" and val.cls == "UnrecoverableError") if prio == "critical" else kind == "return")
@@ -218,15 +247,25 @@ PROBE = "a: mov #a, r0\n1$: sob r0, 1$\n .word a, b-a, .\n .ascii \"hi\"\nb: .by
 PROBE_OK = PROBE.replace(" .word undefined_sym\n", "")
 POOL = ["nop\n", "mov r0\n", ".word 200000\n", "a: a:\n", "br 1000\n", ".link 100\n.link 200\n", "clr (%%y)+\ny=1\n", ".align 0\n",
         ".blkb 100000\n.blkb 100000\nmake_bin\n", ".rad50 \"#\"\n", ".error oops\n", "l: .word l\n .even\n", ".repeat 3 { .word . }\n", "mov (, r0\n", "\"unterminated\n"]
+# programs that fail late (at link time, with many symbols), deep expressions and long dependency chains: histories that stress interpreter-level state
+POOL += [".word big\n" + "".join("c%%d = %%d\n" %% (i, i) for i in range(400)) + "big = c3 * 100000\n",
+         "".join("a%%d = a%%d & 7\n" %% (i, i + 1) for i in range(60)) + "a60 = 5\n.word a0\n",
+         ".word " + "+".join(["1"] * 300) + "\n", ".word zz\n" + "".join("q%%d: nop\n" %% i for i in range(200))]
+def process_state():
+    import os, gc, locale, signal, warnings, threading
+    return [sys.getrecursionlimit(), os.getcwd(), len(sys.path), len(warnings.filters), list(locale.getlocale()), sys.getswitchinterval(), repr(signal.getsignal(signal.SIGINT)),
+            sorted(os.environ) == sorted(ENV0), gc.isenabled(), list(gc.get_threshold()), threading.active_count(), os.umask(os.umask(0o22) and 0o22) if False else None]
+import os
+ENV0 = list(os.environ)
 rnd = random.Random(%d)
-first = [run(PROBE), run(PROBE_OK)]
+first = [run(PROBE), run(PROBE_OK), process_state()]
 bad = []
 for h in range(%d):
     for _ in range(rnd.randrange(1, 8)):
         run(rnd.choice(POOL))
-    now = [run(PROBE), run(PROBE_OK)]
+    now = [run(PROBE), run(PROBE_OK), process_state()]
     if now != first:
-        bad.append(h)
+        bad.append([h, [i for i in range(3) if now[i] != first[i]], now[2] if now[2] != first[2] else None])
 result = [first, bad]
 ''' % (driver.tree_root(), int(os.environ.get("VERIF_SEED", "0") or 0), n_hist)
     outs = []
